@@ -439,7 +439,7 @@ def aggregate_checks(fc, o, stats_on=False):
     return bad
 
 
-def run_history(case, base=None):
+def run_history(case, base=None, mrec=None):
     """Returns (violation description | None, per-op record).  case: {'shards', 'keys_hex', 'ops', 'stats', 'cull'}."""
     keys = [pickle.loads(bytes.fromhex(x)) for x in case['keys_hex']]
     n = case['shards']
@@ -476,6 +476,13 @@ def run_history(case, base=None):
                 b = apply_op(sc, 'cache', o, key, now, stats_on)
                 c = apply_op(ref, 'ref', o, key, now, stats_on)
                 record.append((o['op'], a))
+                if mrec is not None:
+                    extra = None
+                    if o['op'] == 'iter':
+                        extra = list(fc)
+                    elif o['op'] == 'reversed':
+                        extra = list(reversed(fc))
+                    mrec.append((o, o['k'] % len(keys), now, a, extra))
                 if case.get('cull') and o['op'] in ('len', 'iter', 'reversed', 'expire', 'clear', 'evict'):
                     # with culling on, a shard culls only its own expired items: the number of expired leftovers
                     # (which len / iteration / the counts include) legitimately differs from one cache
@@ -536,7 +543,7 @@ def sig_of(case, bad):
     return 'one_cache:%s:%s' % (bad['kind'], bad['op'])
 
 
-def monitor_equivalence(ctx, res, nhist, nops, hist):
+def monitor_equivalence(ctx, res, nhist, nops, hist, modelcases=None):
     base = ctx.scratch('c13eq')
     nshrunk = 0
     for hno in range(nhist):
@@ -547,7 +554,10 @@ def monitor_equivalence(ctx, res, nhist, nops, hist):
         case = {'check': 'history', 'shards': n, 'stats': hno % 2 == 0, 'cull': cull,
                 'keys': [repr(k)[:60] for k in pool], 'keys_hex': [pickle.dumps(k, protocol=4).hex() for k in pool],
                 'ops': gen_history(ctx.rng, nops, len(pool)), 'stream': 'int_float_pairs' if finding_stream else 'main'}
-        bad, record = run_history(case, base)
+        mrec = [] if (modelcases is not None and not cull) else None
+        bad, record = run_history(case, base, mrec)
+        if bad is None and mrec:
+            modelcases.append((n, pool, mrec))
         for (op, a) in record:
             hist['ops'][op] = hist['ops'].get(op, 0) + 1
             hist['outcomes'][a[0]] = hist['outcomes'].get(a[0], 0) + 1
@@ -818,6 +828,114 @@ def correspondence(ctx, res, obs, limit):
         res.sample({'model_check': checks[0][:300], 'about': list(map(str, what[0]))})
 
 
+MODEL_DEFS = '''From Coq Require Import QArith.
+Local Open Scope Z_scope.
+Definition res_eqb (a b : res) : bool :=
+  match a, b with
+  | RBool x, RBool y => Bool.eqb x y | RVal x, RVal y => pv_same x y | RDefault, RDefault => true | RNone, RNone => true
+  | RCount x, RCount y => x =? y | RKeys x, RKeys y => list_eqb pv_same x y | RKeyError, RKeyError => true
+  | RTypeError, RTypeError => true | _, _ => false
+  end.
+Definition E (k v : pyval) (e : option Z) (t : option pyval) (dl : Z) (df : option Z) (now : Z) : cargs :=
+  {| a_key := k; a_value := v; a_expire := e; a_tag := t; a_delta := dl; a_idefault := df; a_now := now |}.
+'''
+KEYED_M = {'set': 'MSet', 'setitem': 'MSetItem', 'add': 'MAdd', 'get': 'MGet', 'getitem': 'MGetItem', 'contains': 'MContains',
+           'touch': 'MTouch', 'incr': 'MIncr', 'decr': 'MDecr', 'pop': 'MPop', 'delete': 'MDelete', 'delitem': 'MDelItem'}
+
+
+def pool_codecs(pool):
+    """codec / hcodec records whose table functions know the real bytes of every key of the pool."""
+    pkk, utf8, packd = '[0]', '[0]', '[0]'
+    for k in pool:
+        t = val.py_term(k)
+        if type(k) is str:
+            utf8 = 'if zlist_eqb s %s then %s else %s' % (fw.cstr(k), fw.cbytes(k.encode('utf-8')), utf8)
+        elif type(k) is float:
+            packd = 'if fl_eqb f %s then %s else %s' % (val.fl_term(k), fw.cbytes(struct.pack('!d', k)), packd)
+        elif type(k) is not bytes and not native_num(k):
+            pkk = 'if pv_same x %s then %s else %s' % (t, fw.cbytes(pk(k)), pkk)
+    return ('{| pkk := fun x => %s; pkv := fun _ => []; unpk := fun _ => None |}' % pkk,
+            '{| utf8 := fun s => %s; pack_d := fun f => %s |}' % (utf8, packd))
+
+
+def res_term(o, a, extra):
+    op = o['op']
+    if op in ('iter', 'reversed'):
+        return '(RKeys %s)' % fw.clist([val.py_term(k) for k in extra])
+    if a[0] == 'exc':
+        return {'KeyError': 'RKeyError', 'TypeError': 'RTypeError'}.get(a[1])
+    if a[0] == 'missing':
+        return 'RDefault'
+    v = a[1]
+    if op in ('set', 'add', 'touch', 'delete', 'contains'):
+        return '(RBool %s)' % fw.cbool(v)
+    if op in ('setitem', 'delitem'):
+        return 'RNone'
+    if op in ('len', 'expire', 'evict', 'clear'):
+        return '(RCount %s)' % fw.cz(v)
+    return '(RVal %s)' % val.py_term(v)
+
+
+def model_history_term(n, pool, mrec):
+    ops, exp = [], []
+    for (o, ki, now, a, extra) in mrec:
+        op = o['op']
+        if op in ('stats', 'volume', 'check'):
+            continue
+        r = res_term(o, a, extra)
+        if r is None:
+            return None
+        t = instr.ticks(now)
+        if op in KEYED_M:
+            e = fw.copt(instr.ticks(o.get('ttl')))
+            tg = 'None' if o.get('tag') is None else '(Some %s)' % val.py_term(o['tag'])
+            v = val.py_term(o['v']) if 'v' in o else '(VInt 0)'
+            ops.append('FKeyed %s (E %s %s %s %s %s %s %s)' % (KEYED_M[op], val.py_term(pool[ki]), v, e, tg, fw.cz(o.get('delta', 0)),
+                                                          fw.copt(o.get('default')), fw.cz(t)))
+        elif op == 'len':
+            ops.append('FLen')
+        elif op == 'clear':
+            ops.append('FClear')
+        elif op == 'expire':
+            ops.append('FExpire %s' % fw.cz(t))
+        elif op == 'evict':
+            ops.append('FEvict %s' % val.py_term(o['tag']))
+        elif op == 'iter':
+            ops.append('FIter')
+        elif op == 'reversed':
+            ops.append('FReversed')
+        else:
+            return None
+        exp.append(r)
+    c, h = pool_codecs(pool)
+    return ('let c := %s in let h := %s in list_eqb res_eqb (snd (fan_run pyval key_eq (fun k => k) '
+            '(fun k => match hash c h k with Some x => x | None => 0 end) %d %s (repeat [] %d%%nat))) %s' % (
+                c, h, n, fw.clist(ops), n, fw.clist(exp)))
+
+
+def model_histories(ctx, res, modelcases, limit):
+    cases = modelcases if len(modelcases) <= limit else ctx.rng.sample(modelcases, limit)
+    checks, kept = [], []
+    for (n, pool, mrec) in cases:
+        t = model_history_term(n, pool, mrec)
+        if t is not None:
+            checks.append(t)
+            kept.append((n, pool, mrec))
+    bad, errors = fw.coq_mismatches('c13h', ['DCPrelude', 'Val', 'DiskBase', 'Gen_Disk', 'Disk', 'FanoutBase', 'Gen_Fanout', 'Fanout'],
+                                    MODEL_DEFS, checks, chunk=8)
+    res.traces_validated += len(checks) - len(bad)
+    res.extra['model_histories'] = len(checks)
+    for e in errors:
+        res.disagreements.append(fw.Violation('model-eval', 'model evaluation failed: ' + e[-400:], {}, 'correspondence'))
+    for i in bad[:3]:
+        n, pool, mrec = kept[i]
+        res.disagreements.append(fw.Violation('model_history', 'model fan_run and FanoutCache disagree on a history over %d shards' % n,
+                                              {'shards': n, 'keys': [repr(k)[:50] for k in pool],
+                                               'ops': [dict(o, now=now, out=repr(a)[:60]) for (o, ki, now, a, extra) in mrec][:80]}, 'correspondence'))
+    if checks:
+        res.sample({'model_history_check': checks[0][:400]})
+
+
 # ---------------------------------------------------------------------------
 
 
@@ -834,7 +952,12 @@ def run(ctx, big=False):
     hist = {'ops': {}, 'outcomes': {}, 'shards': {}, 'streams': {}, 'key_classes': {}, 'keys_per_shard': {}, 'placements': 0, 'faults': 0}
     obs = {'keys': [], 'dirs': [], 'limits': []}
     thorough = (not ctx.quick) or big
-    monitor_equivalence(ctx, res, 420 if thorough else 96, 60 if thorough else 40, hist)
+    modelcases = []
+    if ctx.quick:
+        nhist, nops = (600, 50) if big else (400, 40)
+    else:
+        nhist, nops = 2400, 70
+    monitor_equivalence(ctx, res, nhist, nops, hist, modelcases)
     keys = fixed_keys() + FINDING_KEYS
     if thorough:
         keys = keys + [ctx.rng.randrange(-2 ** 63, 2 ** 63) for _ in range(60)] + \
@@ -848,6 +971,7 @@ def run(ctx, big=False):
     monitor_processes(ctx, res, hist)
     if not ctx.search_mode:
         correspondence(ctx, res, obs, 900 if ctx.quick else 4000)
+        model_histories(ctx, res, modelcases, 64 if ctx.quick else 400)
     res.witnessed['route_int_float_equal'] = witness_int_float()
     res.extra.update({'operation_histogram': hist['ops'], 'outcome_histogram': hist['outcomes'], 'histories_by_shard_count': hist['shards'],
                       'histories_by_stream': hist['streams'], 'key_class_histogram': hist['key_classes'],
